@@ -144,11 +144,13 @@ class Harness:
             selfo = args[0]
             role = selfo.fields.get("role")
             interp.event("express", role)
-            v = verdicts[0] if role == "Executor" else verdicts[1]
+            cur = it._verdicts["v"]
+            v = cur[0] if role == "Executor" else cur[1]
             if v == EXC:
                 raise PyRaise(ExcVal("RuntimeError", ("agent crashed",)))
             return interp.instantiate(self.ap, [v, Unknown(f"payload_{role}"), Unknown(f"confidence_{role}")], {})
 
+        it._verdicts = {"v": verdicts}      # the adversary's answers for the current request (can be changed between runs)
         it.stubs["BioAgent.__init__"] = bio_init
         it.stubs["BioAgent.express"] = bio_express
         N = self.names
@@ -168,12 +170,15 @@ class Harness:
         it.watch_fields = {("CoherentFeedForwardLoop", f) for f in (N.state, N.count, N.last_failure, N.trips)}
         return it, obj
 
-    def run_once(self, o, gate, breaker, cache, state, verdicts, times=1):
+    def run_once(self, o, gate, breaker, cache, state, verdicts, times=1, verdict_seq=None):
+        """verdict_seq: one (executor, assessor) pair per run, for histories in which the agents change their minds"""
         it, obj = self.build(o, gate, breaker, cache, state, verdicts)
         runm = self.p.find_method(self.loop, "run")
         prompt = Unknown("user_prompt")
         results = []
-        for _ in range(times):
+        for i_ in range(len(verdict_seq) if verdict_seq else times):
+            if verdict_seq:
+                it._verdicts["v"] = verdict_seq[i_]
             mark = len(it.events)
             try:
                 r = it.call_fi(runm, [obj, prompt], {})
